@@ -102,19 +102,21 @@ DefSat(W, S, call, env) ==
   \E e \in Candidates(W, S, call, env) : WellTyped(W, e) /\ HardAll(W, S, call, e, S.sz) = "T"
 \* candidates when random-size lists take part: every admissible size, every value of the exposed elements
 ListsOfElems(W, usz) == UNION {{ElemPath(l, i) : i \in 0..W.lists[l].cap} : l \in usz}
+\* sizes tried for a random-size list: 0..3 for scalar lists, the whole population for object lists
+MaxSz(W, l) == IF W.lists[l].isobj THEN W.lists[l].n ELSE 3
 CandSz(W, S, call, env) ==
   LET roots == SeqSet(call.roots)
       usz   == UsedSizes(W, S, roots)
       fixed == DOMAIN env \ ListsOfElems(W, usz)
   IN UNION {
        LET sz2   == [l \in DOMAIN S.sz |-> IF l \in usz THEN szf[l] ELSE S.sz[l]]
-           elems == UNION {{ElemPath(l, i - 1) : i \in 1..szf[l]} : l \in usz}
+           elems == UNION {{ElemPath(l, i - 1) : i \in 1..szf[l]} : l \in {m \in usz : ~W.lists[m].isobj}}
            dom   == fixed \cup elems
            S2    == [S EXCEPT !.sz = sz2, !.vals = [x \in dom |-> IF x \in DOMAIN env THEN env[x] ELSE Zero(TypeOfPath(W, x).w)]]
            used  == UsedRand(W, S2, roots)
        IN {<<[x \in dom |-> IF x \in used THEN f[x] ELSE S2.vals[x]], sz2>> :
               f \in [used -> UNION {TypeVals(W, x) : x \in used}]}
-       : szf \in [usz -> 0..3] }
+       : szf \in {g \in [usz -> 0..4] : \A l \in usz : g[l] <= MaxSz(W, l)} }
 DefSatSz(W, S, call, env) ==
   \E c \in CandSz(W, S, call, env) :
      /\ \A l \in DOMAIN c[2] : c[2][l] <= W.lists[l].cap
@@ -122,7 +124,7 @@ DefSatSz(W, S, call, env) ==
      /\ HardAll(W, [S EXCEPT !.vals = c[1], !.sz = c[2]], call, c[1], c[2]) = "T"
 SmallSz(W, S, call) ==
   LET usz == UsedSizes(W, S, SeqSet(call.roots)) IN
-  usz # {} /\ Cardinality(usz) <= 2 /\ \A l \in usz : W.lists[l].w <= 2 /\ ~W.lists[l].isobj
+  usz # {} /\ Cardinality(usz) <= 2 /\ \A l \in usz : W.lists[l].w <= 2 /\ (W.lists[l].isobj => W.lists[l].n <= 4)
 TotalBits(W, S, call) ==
   LET used == UsedRand(W, S, SeqSet(call.roots)) IN
   IF used = {} THEN 0 ELSE
